@@ -60,7 +60,7 @@ def case_strategy(draw, tier):
         base = draw(st.sampled_from([2 ** 53, 1_760_000_000_000_000_000, 2 ** 60]))
         prios = [[[k, (base + abs(v) * draw(st.integers(1, 3))) * (1 if v > 0 else -1)] for k, v in pr] for pr in prios]
         return {"model": spec, "prios": prios, "huge_levels": True, "via": draw(st.sampled_from([0, 0, 1, 2]))}
-    return {"model": spec, "prios": prios, "via": draw(st.sampled_from([0, 0, 0, 1, 1, 2]))}
+    return {"model": spec, "prios": prios, "via": draw(st.sampled_from([0, 0, 0, 1, 1, 2])), "only_leafs": draw(st.integers(0, 3)) == 0}
 
 
 def _obtain(c, spec, via, ev):
@@ -78,9 +78,12 @@ def _obtain(c, spec, via, ev):
     return c
 
 
-def _check_request(c, prios, ids, nd_ids, cols, ev, round_no):
+def _check_request(c, prios, ids, nd_ids, cols, ev, round_no, only_leafs=False):
     log = []
-    res = list(call(c.select, *prios, solver=solvers.exact(log, 70000), what="select"))
+    # the objective must not depend on how the ANSWER is to be reported (only_leafs narrows the response, not the request)
+    res = list(call(c.select, *prios, solver=solvers.exact(log, 70000), only_leafs=only_leafs, what="select"))
+    if only_leafs:
+        res = [(None, None, None) for _ in res]
     if len(log) != 1 or len(log[0]["objectives"]) != len(prios):
         raise Violation(f"solver called {len(log)} times with {[len(x['objectives']) for x in log]} objectives for {len(prios)} priority dicts")
     feas = log[0]["feasible"]
@@ -186,7 +189,7 @@ def check(case, ev):
     for round_no, prios in enumerate([prios1, prios2]):
         if round_no == 1 and not any(prios1):
             break
-        nt, feas = _check_request(c, prios, ids, nd_ids, cols, ev, round_no)
+        nt, feas = _check_request(c, prios, ids, nd_ids, cols, ev, round_no, only_leafs=bool(case.get("only_leafs")) and round_no == 0)
         if feas is None:
             return
         nontrivial = nontrivial or nt
@@ -200,6 +203,8 @@ def check(case, ev):
         cl.append("negative_priority")
     if any(k in ("R1", "R2", "R3") and k in ids for pr in case["prios"] for k, _ in pr):
         cl.append("priority_on_auxiliary")
+    if case.get("only_leafs"):
+        cl.append("only_leafs")
     if not feas:
         cl.append("infeasible")
     ev.case(case, nontrivial, cl)
